@@ -12,34 +12,34 @@ CLAIMED = {
             "covered by path-exhaustive exploration (z3 per path); floats/UUIDs/IPs from catalogues.",
             "Trusted: CrossHair + z3 + struct.Struct patch; zero-coding replaced by identity except in zerocoded_real "
             "(justified by C03); JankStringyBytes replaced by bytes except in jank_bytes_catalogue; maybe_reload_templates stubbed.",
-            "DESIGN.md §1 C01"),
+            "DESIGN.md A.3 and Part B §1 C01"),
     "C02": ("CrossHair/z3 symbolic execution of the real header parser / lazy+eager body parser / serializer on symbolic "
             "datagram bytes (id, extra, body, ack tail symbolic; flags catalogue; message number pinned) with a symbolic "
             "inspection order and an independent wire-walker oracle for exact consumption",
             "Bounded symbolic model checking over datagram bytes within the stated lengths; quick tier covers the two small "
             "templates, thorough adds the text/Multiple/optional-block templates and real zero-coding.",
             "Trusted: CrossHair + z3; JankStringyBytes replaced by bytes; count/length bytes restricted to {0..3,255}.",
-            "DESIGN.md §1 C02"),
+            "DESIGN.md A.3 and Part B §1 C02"),
     "C03": ("CrossHair/z3 path-exhaustive symbolic execution of the real encoder/decoder loop bodies: one-step "
             "inductive lemmas from an arbitrary loop state (all lengths) + bounded whole-function equivalence",
             "Bounded symbolic model checking: every (state, byte) step of the real loops is decided by z3 for all values; "
             "induction over the length lifts it to all inputs; whole-function checks cover all strings up to a stated length.",
             "Trusted: CrossHair 0.0.110 + z3, the AST loop-state rewrite (vlib.loopstate), the written induction argument.",
-            "DESIGN.md §1 C03"),
+            "DESIGN.md A.3 and Part B §1 C03"),
     "C04": ("CrossHair/z3 symbolic execution of the real InjectionTracker methods from a symbolic pre-state "
             "(window of <=4/6 symbolic ids, symbolic base counters, unbounded ints) under a proved representation invariant",
             "Bounded symbolic model checking with inductive pre-state: each obligation is decided on all paths for all integer "
             "values; RI preservation makes the pre-state stand for every history with a window of at most the stated size.",
             "Trusted: CrossHair + z3; the representation invariant is checked to be inductive by two of the obligations; "
             "logging statements are compiled out (vlib.nolog).",
-            "DESIGN.md §1 C04"),
+            "DESIGN.md A.3 and Part B §1 C04"),
     "C05": ("CrossHair/z3-driven exhaustive exploration of all event histories up to depth 3/4 (forward, inject, drop, "
             "PacketAck, timer; direction and acknowledged id symbolic) through the real handle_proxied_packet / ProxiedCircuit / "
             "InjectionTracker, checked step by step against an abstract reference model of ids and acknowledgements",
             "Bounded model checking of histories: every event sequence within the depth bound is explored (solver-enumerated "
             "selectors) and compared with the reference model after each step.",
             "Trusted: CrossHair + z3; snapshot serializer; deserializer stub; harness clock; endpoints number packets 1,2,3...",
-            "DESIGN.md §1 C05"),
+            "DESIGN.md A.3 and Part B §1 C05"),
     "C06": ("CrossHair/z3 symbolic execution of the real SOCKS5 UDP framing (symbolic port/payload/header bytes) and of the real "
             "UDP association -> LLUDP proxy packet path over all 2-datagram schedules (symbolic source and kind) with the "
             "real byte codec, plus a run-twice non-interference oracle on session/circuit state",
@@ -47,21 +47,21 @@ CLAIMED = {
             "stated length over 4 sources x 6 datagram kinds.",
             "Trusted: CrossHair + z3; message content concrete (C01 covers the codec); exceptions escaping datagram_received "
             "count as discard when nothing was sent and state is unchanged.",
-            "DESIGN.md §1 C06"),
+            "DESIGN.md A.3 and Part B §1 C06"),
     "C07": ("CrossHair/z3 symbolic execution of the real handle_proxied_packet / AddonManager hook dispatch / ProxiedCircuit "
             "ownership guards with a symbolic fault schedule (behaviour per addon hook and subscriber, direction, reliable bit) "
             "and all operation sequences up to length 4, compared with a reference ownership model",
             "Bounded symbolic model checking of the fault schedule: every assignment of the 11 behaviours to 2 (quick) / 3 "
             "(thorough) addons x subscriber variants is explored path-exhaustively.",
             "Trusted: CrossHair + z3; snapshot serializer instead of the byte codec; deserializer stub; addon hot-reload stub.",
-            "DESIGN.md §1 C07"),
+            "DESIGN.md A.3 and Part B §1 C07"),
     "C08": ("CrossHair/z3 symbolic execution of the real combinator serialize/deserialize/calc_size on spec trees composed "
             "from a leaf alphabet (one obligation per tree shape), with symbolic values, byte order, pod mode and trailing bytes",
             "Bounded symbolic model checking: for each composed spec every value of its domain within the stated size bounds "
             "is covered by exhaustive path exploration with z3 deciding each path; counterexamples are replayed concretely.",
             "Trusted: CrossHair + z3 + vlib.chplugin (struct.Struct patch, lazy text formatting); float/UUID leaves use "
             "catalogue constants; lazy_object_proxy replaced by a pure-Python stand-in; 64-bit ints: catalogue base + symbolic byte.",
-            "DESIGN.md §1 C08"),
+            "DESIGN.md A.3 and Part B §1 C08"),
     "C10": ("AST->SMT translation (vlib.pysym) of the live quantisation methods into QF_BVFP with the raw wire value as a "
             "bit-vector; z3 / cvc5 decide each obligation for all 2^8 / 2^16 raw values at once; translator validated against "
             "the real methods on concrete points every run; sat models replayed on the real methods",
@@ -69,7 +69,7 @@ CLAIMED = {
             "zero), i.e. exhaustive over the wire domain by solver, not by enumeration.",
             "Trusted: pysym translator (validated per run), z3/cvc5 FP theories, element-wise numpy models listed per obligation; "
             "QuantizedTime only for a sweep of concrete durations.",
-            "DESIGN.md §1 C10"),
+            "DESIGN.md A.3 and Part B §1 C10"),
     "C09": ("CrossHair/z3 symbolic execution of every registered subfield serializer taken from the live registry: enum "
             "serializers over the FULL wire range of their variable, flag serializers on a solver-selected boundary/single-bit "
             "catalogue, adapters (object state x PCode, xfer packet id, dates x time zones), byte-payload serializers on ANY "
@@ -79,7 +79,7 @@ CLAIMED = {
             "plain-data repr evaluated back as a literal.",
             "Trusted: CrossHair + z3; lazy_object_proxy replaced by a Python proxy; values that reach bit operators, float "
             "unpacking or C datetime are realized, so those domains are catalogues chosen by the solver.",
-            "DESIGN.md §1 C09"),
+            "DESIGN.md A.3 and Part B §1 C09"),
     "C12": ("CrossHair/z3 symbolic execution of the real LLSD message serializer (harnesses generated per template, symbolic "
             "U32/U64/S64 values and block counts), of the real binary LLSD formatter/parsers on trees built from symbolic "
             "choices with symbolic S32 leaves, and of the notation formatter on strings from a hostile alphabet",
@@ -87,7 +87,7 @@ CLAIMED = {
             "selectors only (C parser).",
             "Trusted: CrossHair + z3; third-party llsd constructors run untraced (engine workaround); values other than "
             "the packed integer types come from catalogues.",
-            "DESIGN.md §1 C12"),
+            "DESIGN.md A.3 and Part B §1 C12"),
     "C13": ("CrossHair/z3 symbolic execution of BOTH real decoders (struct-based fast reader and declarative template) on "
             "payloads produced by the template's own serializer from a value with symbolic section flags / ids / State / "
             "path parameters, compared field by field; template re-encoding compared with the payload",
@@ -95,7 +95,7 @@ CLAIMED = {
             "patterns x 2 object kinds, thorough all 2^11 patterns x 4 kinds (may be inconclusive within its budget).",
             "Trusted: CrossHair + z3 + struct patch (incl. the repeat-count fix); floats/UUIDs/TE/ExtraParams from the "
             "repo's sample payload; State byte from a 6-value catalogue.",
-            "DESIGN.md §1 C13"),
+            "DESIGN.md A.3 and Part B §1 C13"),
     "C14": ("CrossHair/z3 path-exhaustive exploration of ALL bounded message histories (every event parameter a solver-chosen "
             "integer; first event up to renaming) driven through the real session message handler into the real world / region "
             "object managers, compared after every event with an independent scene-graph reference model (indices, parent / "
@@ -104,26 +104,26 @@ CLAIMED = {
             "concrete values once the solver has fixed a history.",
             "Trusted: CrossHair + z3 (path enumeration over the selectors), the reference model in harness/c14.py; message "
             "content is a concrete catalogue; event loop pumped between events.",
-            "DESIGN.md §1 C14"),
+            "DESIGN.md A.3 and Part B §1 C14"),
     "C15": ("CrossHair/z3-driven exhaustive exploration of fault schedules (event type x capability kind x raise point x addon "
             "behaviour) through the real pump_proxy_event / HippoHTTPFlow take/resume / CapData (de)hydration, counting "
             "hand-backs and comparing the handed-back state",
             "Fault enumeration decided path-exhaustively: all 560 schedules are executed on the real code.",
             "Trusted: CrossHair + z3; in-process queues instead of multiprocessing queues; URLs/bodies concrete.",
-            "DESIGN.md §1 C15"),
+            "DESIGN.md A.3 and Part B §1 C15"),
     "C16": ("CrossHair/z3-driven exhaustive exploration of cap registration histories (seed grants, temporary, proxy-only, "
             "wrapper; two regions; prefix-related URLs) through the real ProxiedRegion/Session/SessionManager and of all "
             "request/grant subsets through the real Seed request/response rewriting, against a reference model",
             "Bounded model checking of histories (depth 2 quick / 3 thorough) with solver-enumerated selectors; every "
             "combination within the bounds is executed on the real code and compared with the model.",
             "Trusted: CrossHair + z3; cap names/URLs are catalogue constants; llsd formatter constructor run untraced.",
-            "DESIGN.md §1 C16"),
+            "DESIGN.md A.3 and Part B §1 C16"),
     "C17": ("CrossHair/z3-driven exhaustive exploration of event-queue poll histories (ack ids incl. stale re-polls, upstream "
             "status, event counts, swallowed subsets, injections, region announcements) through the real request/response "
             "handlers and EventQueueManager, against a sequence model of what the viewer must receive",
             "Bounded model checking of poll histories (2 polls quick / 3 thorough) with solver-enumerated selectors.",
             "Trusted: CrossHair + z3; LLSD-XML bodies and mitmproxy flow objects are concrete per path.",
-            "DESIGN.md §1 C17"),
+            "DESIGN.md A.3 and Part B §1 C17"),
     "C18": ("CrossHair/z3 symbolic execution of the real filter nodes / PEG-compiled filters with symbolic leaf truth values, "
             "of the real _val_matches and LLUDPMessageLogEntry.matches over an operator x type matrix with symbolic values, "
             "and of all bounded operation sequences on the real FilteringMessageLogger against a reference model",
@@ -131,7 +131,7 @@ CLAIMED = {
             "comparison matrix with symbolic ints/bytes; logger histories of the stated depth.",
             "Trusted: CrossHair + z3; strings in the ordering matrix come from a catalogue; log entries are minimal stubs "
             "for the view obligations.",
-            "DESIGN.md §1 C18"),
+            "DESIGN.md A.3 and Part B §1 C18"),
     "C19": ("CrossHair/z3 symbolic execution of the real HippoClientProtocol.datagram_received and Circuit methods from a "
             "symbolic circuit pre-state (ids already seen, next id, retry budget) over <=3 symbolic arrivals / ack forms / "
             "timer rounds, compared with a reference model of the dedupe window and the resend timer",
@@ -139,7 +139,7 @@ CLAIMED = {
             "bits are covered path-exhaustively.",
             "Trusted: CrossHair + z3; serializer replaced by a snapshot recorder (byte codec is C01), deserializer by a stub that "
             "hands over the prepared Message, circuit clock by a harness clock.",
-            "DESIGN.md §1 C19"),
+            "DESIGN.md A.3 and Part B §1 C19"),
     "C20": ("CrossHair/z3 symbolic execution of the real chunker / chunk handlers (Xfer, XferManager, TransferManager) with a symbolic "
             "payload and a symbolic arrival schedule; path-exhaustive exploration of solver-chosen field combinations of inventory "
             "items / categories / objects through legacy text, legacy LLSD and AIS LLSD (symbolic U32/S32 values through the LLSD "
@@ -149,7 +149,7 @@ CLAIMED = {
             "C boundaries (StringIO, expat).",
             "Trusted: CrossHair + z3; chunk size constant reduced to 4 in one obligation (the production value in another); "
             "third-party llsd constructors run untraced.",
-            "DESIGN.md §1 C20"),
+            "DESIGN.md A.3 and Part B §1 C20"),
 }
 
 NOT_APPLICABLE = {
